@@ -451,8 +451,9 @@ class Inventory:
             if _is_count_arith(du, va_) and _is_count_arith(du, vb_) and (kind == "Overflow(Add)" or const_int(strip_casts(va_)) is not None or const_int(strip_casts(vb_)) is not None):
                 s.status, s.reason = "exempt", "small-constant arithmetic over in-memory lengths / byte counts (inputs smaller than 2 GiB: stated assumption)"
                 return
-        if kind == "Overflow(Sub)" and len(ops) == 2 and (_op_ty(fn, ops[0]) or _op_ty(fn, ops[1])) in ("i64", "isize", "i128"):
-            # a signed >= 64-bit counter minus a small constant / byte count: 2^63 steps would be needed to reach the type's minimum
+        if kind == "Overflow(Sub)" and len(ops) == 2 and (_op_ty(fn, ops[0]) or _op_ty(fn, ops[1])) in ("i64", "isize", "i128", "i32"):
+            # a signed counter minus a small constant / byte count: 2^63 steps (2^31 bytes of input for i32: stated assumption) would be
+            # needed to reach the type's minimum
             why = self._add_bounded(fn, du, t, [ops[0], ops[1]], only_first=True)
             if why:
                 s.status, s.reason = "exempt", why.replace("growing", "changing")
